@@ -6,7 +6,7 @@ SIM = "E1 cluster simulation"
 CHECKS = {
  "C01": (SIM, "4, 5/C01", "online per-task automaton over the announced event stream + execution ground truth of a fake launcher, in an in-process simulation of the real server core, worker state machines and HQ job layer under random/PCT message schedules and injected faults",
          "runtime monitor: per-task event automaton + ground-truth executions over simulated cluster histories"),
- "C02": (SIM, "4, 5/C02", "step-boundary comparison of the job layer's unfinished task set with the scheduler's task map, and a bounded-progress check at quiescence after a fault-free drain with capable workers (liveness restated as bounded progress)",
+ "C02": (SIM, "4, 5/C02", "step-boundary comparison of the job layer's unfinished task set with the scheduler's task map, a bounded-progress check at quiescence after a fault-free drain with capable workers (liveness restated as bounded progress), and rest-point rules inside the hostile phase (nothing in flight, nothing executing, no scheduling requested: no ready task may wait beside an idle capable worker, no retraction may be unresolved, no idle worker may keep refusing a request its allocator could serve)",
          "runtime monitor: cross-layer set equality at every step + quiescence (bounded progress) check"),
  "C03": (SIM, "4, 5/C03", "order check of execution starts against dependency finishes over recorded histories of random DAG workloads with failures/cancels",
          "runtime monitor: happens-before check of starts vs. dependency finishes; propagation check at quiescence"),
